@@ -311,3 +311,75 @@ Proof.
   unfold denote. now rewrite P3.
 Qed.
 Print Assumptions reader_units_longhand.
+
+(** ** node multipliers written out as well: [Grammar.expand] *)
+Fixpoint mpos_item (it : item) : bool :=
+  match it with
+  | Item _ _ m _ brs =>
+      (match m with Some ds => (1 <=? digits_nat ds)%nat | None => true end) && forallb mpos_branch brs
+  end
+with mpos_branch (br : branch) : bool := match br with Branch c _ _ => forallb mpos_item c end.
+Lemma repeat_snoc {A} (t : A) : forall k, repeat t (Datatypes.S k) = repeat t k ++ [t].
+Proof. induction k as [|k IH]; [reflexivity|]. cbn [repeat app] in *. now rewrite <- IH. Qed.
+Lemma m_run_prefix fo p a b : (forall x, m_run fo a x = m_run fo b x) -> forall x, m_run fo (p ++ a) x = m_run fo (p ++ b) x.
+Proof. intros H x. rewrite !m_run_app. destruct (m_run fo p x); cbn [bind]; [apply H|reflexivity]. Qed.
+Definition item_xn (fo : float_oracle) (it : item) : Prop := mpos_item it = true ->
+  forall ts x, m_run fo (flat_map toks_item (xn_item it) ++ ts) x = m_run fo (toks_item it ++ ts) x.
+Definition branch_xn (fo : float_oracle) (br : branch) : Prop := mpos_branch br = true ->
+  forall ts x, m_run fo (toks_branch (xn_branch br) ++ ts) x = m_run fo (toks_branch br ++ ts) x.
+Lemma chain_xn fo c : Forall (item_xn fo) c -> forallb mpos_item c = true ->
+  forall ts x, m_run fo (flat_map toks_item (flat_map xn_item c) ++ ts) x = m_run fo (flat_map toks_item c ++ ts) x.
+Proof.
+  induction 1 as [|it c Hit _ IH]; intros Hp ts x; [reflexivity|].
+  cbn [forallb] in Hp. apply andb_prop in Hp as [Hp1 Hp2]. cbn [flat_map]. rewrite flat_map_app, <- !app_assoc.
+  rewrite (Hit Hp1). apply m_run_prefix. intros y. now apply IH.
+Qed.
+Lemma branches_xn fo brs : Forall (branch_xn fo) brs -> forallb mpos_branch brs = true ->
+  forall ts x, m_run fo (flat_map toks_branch (map xn_branch brs) ++ ts) x = m_run fo (flat_map toks_branch brs ++ ts) x.
+Proof.
+  induction 1 as [|br tl Hbr _ IH]; intros Hp ts x; [reflexivity|].
+  cbn [forallb] in Hp. apply andb_prop in Hp as [Hp1 Hp2]. cbn [map flat_map]. rewrite <- !app_assoc.
+  rewrite (Hbr Hp1). apply m_run_prefix. intros y. now apply IH.
+Qed.
+Lemma ast_xn fo : forall it, item_xn fo it.
+Proof.
+  apply (item_ind2 (item_xn fo) (branch_xn fo)).
+  - intros n r m b brs Hbrs Hp ts x. cbn [mpos_item] in Hp. apply andb_prop in Hp as [Hm Hb].
+    assert (Hk : (1 <= mult_val m)%nat) by (unfold mult_val; destruct m; [now apply Nat.leb_le|lia]).
+    cbn [xn_item toks_item]. rewrite flat_map_app. cbn [flat_map toks_item mult_val]. rewrite app_nil_r.
+    assert (Erep : forall k, flat_map toks_item (repeat (Item n [] None None []) k) = repeat (TNode n 1) k).
+    { induction k as [|k IHk]; [reflexivity|]. cbn [repeat flat_map toks_item mult_val map app]. now rewrite IHk. }
+    rewrite Erep.
+    change ((TNode n (mult_val m) :: map (fun om => TRing (fst om) (marker_val (snd om))) r ++ osym_tok b ++ flat_map toks_branch brs) ++ ts)
+      with (TNode n (mult_val m) :: (map (fun om => TRing (fst om) (marker_val (snd om))) r ++ osym_tok b ++ flat_map toks_branch brs) ++ ts).
+    rewrite m_node_split by assumption.
+    destruct (mult_val m) as [|k]; [lia|]. rewrite repeat_snoc. replace (Datatypes.S k - 1)%nat with k by lia.
+    rewrite <- !app_assoc. apply m_run_prefix. intros y. cbn [app].
+    change (TNode n 1 :: ?l) with ([TNode n 1] ++ l). rewrite <- !app_assoc.
+    apply (m_run_prefix fo [TNode n 1]). intros z. apply m_run_prefix. intros w. apply m_run_prefix. intros v.
+    now apply branches_xn.
+  - intros c bm a Hc Hp ts x. cbn [mpos_branch] in Hp. cbn [xn_branch toks_branch].
+    change ((TOpen :: ?l) ++ ts) with ([TOpen] ++ l ++ ts). 
+    cbn [app]. rewrite <- !app_assoc. cbn [m_run]. destruct (m_step fo x TOpen) as [y|]; cbn [bind]; [|reflexivity].
+    now apply chain_xn.
+Qed.
+Lemma expand_nodes_toks fo c : forallb mpos_item c = true ->
+  forall x, m_run fo (toks (expand_nodes c)) x = m_run fo (toks c) x.
+Proof.
+  intros Hp x. assert (Hall : Forall (item_xn fo) c) by (apply Forall_forall; intros; apply ast_xn).
+  pose proof (chain_xn fo c Hall Hp [] x) as H. now rewrite !app_nil_r in H.
+Qed.
+
+(** reading the shorthand = reading the string with EVERY multiplier written out *)
+Theorem reader_units_expand fo braces a : units_ok fo a = true ->
+  forallb mpos_item (expand_branches a) = true ->
+  wf fo (expand a) = true -> has_branch_mult (expand a) = false ->
+  read_cgsmiles fo (print braces a) = read_cgsmiles fo (print braces (expand a)).
+Proof.
+  intros Hu Hp Hwf Hb. rewrite (reader_sim_units_gen fo braces a Hu), (reader_sim_grammar fo braces _ Hwf Hb).
+  assert (Hrg : rg_chain true fo (expand a) = true) by (apply rg_of_wf_gen; [assumption|assumption|discriminate]).
+  assert (Hne : expand a <> []) by (unfold wf in Hwf; destruct (expand a); [discriminate|discriminate]).
+  destruct (linearize_x_spec fo _ Hrg Hne) as (_ & _ & P3 & _).
+  unfold denote. rewrite P3. unfold expand. now rewrite (expand_nodes_toks fo _ Hp).
+Qed.
+Print Assumptions reader_units_expand.
